@@ -124,6 +124,7 @@ func buildSignedData(
 	cert *x509.Certificate,
 	key *rsa.PrivateKey,
 	extra []cmsAttr,
+	pss bool,
 ) ([]byte, error) {
 	if eContent != nil {
 		h := sha256.Sum256(eContent)
@@ -136,7 +137,19 @@ func buildSignedData(
 	attrBytes := encodeAttrs(attrs)
 
 	toSign := sha256.Sum256(tlv(tagSet, attrBytes))
-	sig, err := rsa.SignPKCS1v15(rand.Reader, key, crypto.SHA256, toSign[:])
+	var sig []byte
+	var err error
+	sigAlg := tlv(tagSeq, der(oidSHA256WithRSA), derNull)
+	if pss {
+		// RSASSA-PSS (RFC 4055): SHA-256, MGF1 with SHA-256, salt length 32, all parameters written out
+		sig, err = rsa.SignPSS(rand.Reader, key, crypto.SHA256, toSign[:], &rsa.PSSOptions{SaltLength: 32, Hash: crypto.SHA256})
+		sha := tlv(tagSeq, der(oidSHA256), derNull)
+		mgf := tlv(tagSeq, der(asn1.ObjectIdentifier{1, 2, 840, 113549, 1, 1, 8}), sha)
+		params := tlv(tagSeq, tlv(0xA0, sha), tlv(0xA1, mgf), tlv(0xA2, der(32)))
+		sigAlg = tlv(tagSeq, der(asn1.ObjectIdentifier{1, 2, 840, 113549, 1, 1, 10}), params)
+	} else {
+		sig, err = rsa.SignPKCS1v15(rand.Reader, key, crypto.SHA256, toSign[:])
+	}
 	if err != nil {
 		return nil, fmt.Errorf("sigdoc: sign attributes: %w", err)
 	}
@@ -146,7 +159,7 @@ func buildSignedData(
 		tlv(tagSeq, cert.RawIssuer, der(cert.SerialNumber)),
 		tlv(tagSeq, der(oidSHA256)),
 		tlv(tagCtx0Cons, attrBytes),
-		tlv(tagSeq, der(oidSHA256WithRSA), derNull),
+		sigAlg,
 		tlv(tagOctet, sig),
 	)
 
@@ -185,6 +198,12 @@ type tstInfo struct {
 // makeSignature returns the bytes that go into /Contents for the given SubFilter over data
 // (data = concatenation of the two byte ranges).
 func makeSignature(subFilter string, data []byte, when time.Time) ([]byte, error) {
+	return makeSignatureOpt(subFilter, false, data, when)
+}
+
+// makeSignatureOpt: pss selects an RSASSA-PSS signer for the CMS based SubFilters (the harness's own SignedData
+// assembly is then used for the detached ones as well; adbe.x509.rsa_sha1 has no such variant).
+func makeSignatureOpt(subFilter string, pss bool, data []byte, when time.Time) ([]byte, error) {
 	m, err := keys()
 	if err != nil {
 		return nil, err
@@ -203,6 +222,14 @@ func makeSignature(subFilter string, data []byte, when time.Time) ([]byte, error
 		return tlv(tagOctet, sig), nil
 
 	case PKCS7Detached, CAdESDetached:
+		if pss {
+			h := sha256.Sum256(data)
+			attrs := []cmsAttr{{oidAttrSigningCertV2, signingCertificateV2(m.leaf)}}
+			if subFilter == PKCS7Detached {
+				attrs = append(attrs, cmsAttr{oidAttrSigningTime, derUTCTime(when)})
+			}
+			return buildSignedData(oidData, nil, h[:], m.leaf, m.leafKey, attrs, true)
+		}
 		// The repository's own signer: detached SignedData, eContentType id-data, signed attributes
 		// contentType + messageDigest + extras.
 		sd, err := pkcs7.NewSignedData()
@@ -230,7 +257,7 @@ func makeSignature(subFilter string, data []byte, when time.Time) ([]byte, error
 		h := sha1.Sum(data)
 		return buildSignedData(oidData, h[:], nil, m.leaf, m.leafKey, []cmsAttr{
 			{oidAttrSigningTime, derUTCTime(when)},
-		})
+		}, pss)
 
 	case RFC3161:
 		h := sha256.Sum256(data)
@@ -240,7 +267,7 @@ func makeSignature(subFilter string, data []byte, when time.Time) ([]byte, error
 		return buildSignedData(oidTSTInfo, der(info), nil, m.tsa, m.tsaKey, []cmsAttr{
 			{oidAttrSigningTime, derUTCTime(when)},
 			{oidAttrSigningCertV2, signingCertificateV2(m.tsa)},
-		})
+		}, pss)
 	}
 	return nil, fmt.Errorf("sigdoc: unsupported SubFilter %q", subFilter)
 }
